@@ -5,6 +5,8 @@
 import LzmaProofs.Lemmas.Monad
 set_option linter.unusedSimpArgs false
 namespace Lzma
+-- all helper definitions and lemmas of the LZMA2 framing proofs live in `Lzma.L2`
+namespace L2
 
 /-! ## `M`-monad inversion helpers -/
 
@@ -30,7 +32,8 @@ theorem lzErr_error_inv {e : Except Err α} {x : Err} (h : lzErr e = .error x) :
 
 /-! ## `process_mode` never changes `unpacked_size`; in `Finish` mode it checks it -/
 
-namespace DState
+section
+open DState
 variable {ω : Type} [LzBuf ω]
 
 theorem applySym_unpackedSize {st : DState} {w : ω} {rc : RC} {rd : Rd} {sym : RawSym}
@@ -155,10 +158,11 @@ theorem processMode_unpackedSize {mode : Mode} {st : DState} {w : ω} {rc : RC} 
   | none =>
     rw [hu] at h; simp at h; rw [← h.2.1, e]
 
-end DState
+end
 
 /-! ## reader lemmas -/
 namespace Rd
+open Lzma.Rd
 
 theorem readU8_ok_iff {r r' : Rd} {b : UInt8} :
     r.readU8 = .ok (b, r') ↔ ∃ rest, r.rem = b :: rest ∧ r' = { r with rem := rest } := by
@@ -717,7 +721,7 @@ theorem Chunk.Exec.packed_len {c u p payload d a s d' a' s'}
     (h : (Chunk.packed c u p payload).Exec d a s d' a' s') :
     a'.len = (if 0xE0 ≤ c.toNat then 0 else a.len) + u := by
   obtain ⟨s0, a0, st0, rc, tk, st1, rc1, tk1, h1, h2, h3, h4, -⟩ := h
-  have := (DState.processMode_finish_size h4 rfl).1
+  have := (processMode_finish_size h4 rfl).1
   have e : a0.len = (if 0xE0 ≤ c.toNat then 0 else a.len) := by
     split at h1
     · simp only [Accum.reset] at h1
@@ -1308,7 +1312,8 @@ theorem lzma2Decompress_strict_prefix_error {rd rd' : Rd} {s s' : Sink}
       have : z.length = 0 := by omega
       exact hz (List.eq_nil_of_length_eq_zero this)
 
-namespace DState
+section
+open DState
 variable {ω : Type} [LzBuf ω]
 
 theorem isFinishedOk_true_rem {rc : RC} {rd : Rd} (h : rc.isFinishedOk rd = .ok true) :
@@ -1414,7 +1419,7 @@ theorem processMode_finish_none_eof {st : DState} {w : ω} {rc : RC} {rd : Rd} {
   simp at h
   rw [← h.2.2.2.2]; exact r
 
-end DState
+end
 
 theorem throwM_bind_ok {e : Err} {f : α → M β} {s s' : Sink} {b : β}
     (h : (throwM e >>= f) s = (s', .ok b)) : False := by
@@ -1550,4 +1555,52 @@ theorem lzmaDecompress_no_size_eof {rd rd' : Rd} {opts : Options} {s s' : Sink}
   obtain ⟨-, -, rfl⟩ := h3
   exact processMode_finish_none_eof h4 hs1 hs2
 
+
+/-! ### error classes of the stages of `parse_lzma` -/
+
+theorem resetState_error_iff {st : DState} {p : Props} {e : Err} :
+    st.resetState p = .error e ↔ p.validate = .error e := by
+  unfold DState.resetState
+  cases h : p.validate with
+  | error e' => simp [bind, Except.bind]
+  | ok u => simp [bind, Except.bind, pure, Except.pure]
+
+theorem propsOfByte_valid {b : UInt8} (h : b.toNat < 225) : (propsOfByte b).validate = .ok () := by
+  unfold Props.validate propsOfByte
+  rw [if_pos (by dsimp only; omega)]; rfl
+
+/-- error classes of the property stage: `LzmaError`, or the `validate` panic when the previous
+properties of an (unreachable) decoder state are invalid -/
+theorem propsStage_error_class {d : Lzma2Decoder} {rd : Rd} {cls : Nat} {e : Err}
+    (h : propsStage d rd cls = .error e) :
+    e = .lzma ∨ d.lzmaState.props.validate = .error e := by
+  unfold propsStage at h
+  split at h
+  · split at h
+    · split at h
+      · rename_i h1; simp at h; subst h; exact Or.inl (lzErr_error_inv h1)
+      · split at h
+        · simp at h; exact Or.inl h.symm
+        · split at h
+          · simp at h; exact Or.inl h.symm
+          · split at h
+            · rename_i hb _ _ _ h7
+              have := propsOfByte_valid (b := by assumption) (by omega)
+              rw [resetState_error_iff, this] at h7
+              simp at h7
+            · simp at h
+    · split at h
+      · rename_i h7; simp at h; subst h; exact Or.inr (resetState_error_iff.1 h7)
+      · simp at h
+  · simp at h
+
+theorem payloadStage_short {proc : Proc} {st : DState} {a : Accum} {rd : Rd} {k : Nat} {s : Sink}
+    (h : rd.rem.length < 5) : payloadStage proc st a rd k s = (s, .error .lzma) := by
+  unfold payloadStage
+  have : lzErr (RC.new (rd.split k).1) = .error .lzma := by
+    obtain ⟨e, he⟩ := RC.new_short (rd := (rd.split k).1) (by simp [Rd.split]; omega)
+    rw [he]; rfl
+  simp only [this]
+
+end L2
 end Lzma
